@@ -196,6 +196,10 @@ pub fn serde_check() -> (usize, Vec<String>) {
     c.rejects::<Vec<u32>>(sexp!((1 2 . 3))); c.rejects::<Vec<u32>>(sexp!((1 . 2))); c.rejects::<(u32, String)>(sexp!((42 "Answer" . 7)));
     c.rejects::<Pair>(sexp!((42 "Answer" . 7))); c.rejects::<E>(sexp!((T 42 "bye" . 7))); c.rejects::<[u8; 2]>(sexp!((1 2 . 3)));
     c.rejects::<BTreeSet<u8>>(sexp!((1 2 . 3))); c.rejects::<Vec<Vec<u32>>>(sexp!(((1 . 2))));
+    c.rejects::<Vec<u32>>(Value::Nil); c.rejects::<BTreeSet<u8>>(Value::Nil); c.rejects::<(u32, u32)>(Value::Nil); c.rejects::<Pair>(Value::Nil);
+    c.rejects::<BTreeMap<String, u8>>(Value::Nil); c.rejects::<Header>(Value::Nil); c.rejects::<String>(Value::Nil); c.rejects::<u8>(Value::Nil);
+    c.rejects::<Vec<Vec<u32>>>(sexp!((#nil))); c.rejects::<E>(Value::Nil); c.rejects::<bool>(Value::Nil); c.rejects::<char>(Value::Nil);
+    c.rejects::<Vec<u32>>(Value::Bool(false)); c.rejects::<Vec<u32>>(Value::keyword("k")); c.rejects::<Vec<u32>>(Value::from('c'));
     c.rejects::<Vec<u32>>(Value::from(1)); c.rejects::<Vec<u32>>(Value::string("s")); c.rejects::<Vec<u32>>(Value::symbol("s"));
     c.rejects::<(u32, u32)>(sexp!((1))); c.rejects::<(u32, String)>(Value::vector(vec![Value::from(1)]));
     c.rejects::<Pair>(Value::vector(Vec::<Value>::new())); c.rejects::<[u8; 3]>(Value::vector(vec![Value::from(1), Value::from(2)]));
